@@ -269,6 +269,8 @@ def extract(model_py: Path):
             "loads_before": [e[2:] for e in ev[:first_write] if e[0] == "L"],
             "ctx": [e[2:] for e in ev if e[0] == "I"],
             "containers": [e.split(":")[1] for e in ev if e[0] == "C"],
+            # the rejecting statements themselves (conditions included), normalised like the helper bodies
+            "guards": [x for x in _normalised_body(m) if "raise" in x],
         })
     return rows
 
@@ -768,6 +770,12 @@ def render(rows, eqf, arity_body, chain, surf=None, live=(), helpers=()) -> str:
     L.append("def containers : Mut → List String")
     for r in rows:
         L.append(f"  | .{r['name']} => {_strs(r['containers'])}")
+    L.append("")
+    L.append("/-- every statement of the body that can reject the call, WITH its condition (normalised: messages dropped,")
+    L.append("    parameters / locals renamed by first appearance) -/")
+    L.append("def guards : Mut → List String")
+    for r in rows:
+        L.append(f"  | .{r['name']} => [" + ", ".join(_lstr(g) for g in r["guards"]) + "]")
     L.append("")
     L.append("/-- dataclass fields of `Model` that the generated `__eq__` compares (no `compare=False`) -/")
     L.append(f"def eqFields : List String := {_strs(eqf)}")
